@@ -24,6 +24,9 @@
                                             (executable checks of Model/Api/Domain.lean, proved sound in Lemmas/ApiDomain.lean)
     modelreq <variant> <op> <args…>      -> <netfn> <lun> <cmd> <hex> | <error tag>  the request the model puts on the wire
     ops                                  -> names of the operations that have a model
+    model / modelx / modelreq also take `set_ip_address_text <hex of the argument's characters> <channel>`: the model of
+    set_ip_address on the TEXT of its argument (Model.Api.api_set_ip_address_text: split at '.', each octet a decimal
+    numeral with int()'s blanks / sign); `spec` is asked with the four octets the text DENOTES (harness: decimal per octet)
 -/
 import PyIpmi.Base.Proto
 import PyIpmi.Spec.Bmc
@@ -500,6 +503,20 @@ def specExtra (op : String) (a : List String) (s : BmcState) : Option String :=
     some (so (find_component (← ofHex h) s))
   | _, _ => none
 
+/-- the model of one call and whether its arguments are inside `Call.InRange`: `set_ip_address_text <hex> <ch>` runs
+the model of the textual argument; every other line goes through `parseCall` -/
+def modelOf (v : PyIpmi.Model.Api.Variant) (op : String) (args : List String) :
+    Option (PyIpmi.Model.Api.Exchange × Bool) :=
+  match op, args with
+  | "set_ip_address_text", [t, c] => do
+    let text := (← ofHex t).map Char.ofNat
+    let ch ← pNat c
+    let inr := match PyIpmi.Model.Api.ipAddressToData text with
+      | .ok ip => inRangeB (.setIp ip ch)
+      | _ => false
+    some (PyIpmi.Model.Api.api_set_ip_address_text text ch, inr)
+  | _, _ => (parseCall op args).map fun c => (PyIpmi.Model.Api.opOfV v c, inRangeB c)
+
 /-! ### the loop -/
 
 abbrev Insts := Array BmcState
@@ -558,33 +575,32 @@ def step (st : Insts) (line : String) : Insts × String :=
     | some s, some c => (st, dumpState (run c s).1)
     | _, _ => (st, "bad-op")
   | "model" :: i :: variant :: op :: args =>
-    match (pNat i).bind (st[·]?), parseCall op args with
-    | some s, some c =>
-      match PyIpmi.Model.Api.runModelV (.ofLetters variant) c s with
+    match (pNat i).bind (st[·]?), modelOf (.ofLetters variant) op args with
+    | some s, some (x, _) =>
+      match x.run s with
       | (s', .ok r) => (st, digest s' ++ " " ++ showResult r)
       | (s', e) => (st, digest s' ++ " " ++ e.tag)
     | _, _ => (st, "bad-op")
   | "modelx" :: i :: variant :: op :: args =>
     -- model + modelreq + domain in one round trip, separated by " | "
-    match (pNat i).bind (st[·]?), parseCall op args with
-    | some s, some c =>
-      let x := PyIpmi.Model.Api.opOfV (.ofLetters variant) c
+    match (pNat i).bind (st[·]?), modelOf (.ofLetters variant) op args with
+    | some s, some (x, inr) =>
       let m := match x.run s with
         | (s', .ok r) => digest s' ++ " " ++ showResult r
         | (s', e) => digest s' ++ " " ++ e.tag
       let q := match x.request with
         | .ok r => s!"{r.netfn} {r.lun} {r.cmd} {toHex r.data}"
         | e => e.tag
-      (st, m ++ " | " ++ q ++ " | " ++ sb (inRangeB c) ++ " " ++ sb (wfB s))
+      (st, m ++ " | " ++ q ++ " | " ++ sb inr ++ " " ++ sb (wfB s))
     | _, _ => (st, "bad-op")
   | "domain" :: i :: op :: args =>
     match (pNat i).bind (st[·]?), parseCall op args with
     | some s, some c => (st, sb (inRangeB c) ++ " " ++ sb (wfB s))
     | _, _ => (st, "bad-op")
   | "modelreq" :: variant :: op :: args =>
-    match parseCall op args with
-    | some c =>
-      match (PyIpmi.Model.Api.opOfV (.ofLetters variant) c).request with
+    match modelOf (.ofLetters variant) op args with
+    | some (x, _) =>
+      match x.request with
       | .ok r => (st, s!"{r.netfn} {r.lun} {r.cmd} {toHex r.data}")
       | e => (st, e.tag)
     | none => (st, "bad-op")
